@@ -337,6 +337,14 @@ func body(s *simrt.Sim, tier string) {
 			return
 		}
 		now := time.Now()
+		// what has been fetched successfully by this point of rest has been swapped in; GetX509SVID below has
+		// scheduling points of its own, so a renewal may complete while it runs: newer is fine, older is not
+		var atRest *issue
+		for _, is := range issues {
+			if is.good() && is.retStamp != 0 {
+				atRest = is
+			}
+		}
 		sv, err := src.GetX509SVID()
 		if err != nil {
 			s.Fail("svid-lost", fmt.Sprintf("GetX509SVID failed after a successful fetch: %v", err))
@@ -360,8 +368,9 @@ func body(s *simrt.Sim, tier string) {
 			s.Fail("svid-unknown", fmt.Sprintf("served serial %d was never issued", serial))
 			return
 		}
-		if latestOK != nil && served != latestOK {
-			s.Fail("stale-svid", fmt.Sprintf("at rest the served SVID is serial %d although fetch #%d (serial %d) succeeded later", serial, latestOK.n, latestOK.serial))
+		_ = latestOK
+		if atRest != nil && served.n < atRest.n {
+			s.Fail("stale-svid", fmt.Sprintf("the served SVID is serial %d although fetch #%d (serial %d) had succeeded before the rotation loop came to rest", serial, atRest.n, atRest.serial))
 		}
 		// renewal no later than one minute after half-life (plus injected delay)
 		if now.After(served.renew.Add(time.Minute + maxInjected + time.Second)) {
